@@ -74,6 +74,19 @@ def identity_sig_scenarios(rng):
         out.append((f"identity-sig-word2-flags-{f:02x}", "agg", pks, [m, m], inf[:48] + bytes([f]) + inf[49:], False))
     out.append(("identity-sig-a-flag", "agg", pks, [m, m], bytes([0xe0]) + inf[1:], False))
     out.append(("identity-sig-no-c-flag", "agg", pks, [m, m], bytes([0x40]) + inf[1:], False))
+    # a key list padded with the IDENTITY key (contributes nothing to the pairing product) and a key shifted by a cofactor-torsion
+    # point (the pairing with T is killed by the final exponentiation): the signature of the honest part "matches" — must be refused
+    ident = enc_g1(None)
+    for s_ in SUITES:
+        C = suite_cls(s_)
+        sg = C.Sign(a, m)
+        out.append(("identity-key-appended", "aggS:" + s_, [pk_of(a), ident], [m, b"m2"], sg, False))
+        out.append(("identity-key-prepended", "aggS:" + s_, [ident, pk_of(a)], [b"m2", m], sg, False))
+        if s_ != "aug":
+            for T in ((O.Fp(0, P), O.Fp(2, P)), O.torsion_g1(rng)):
+                shifted = enc_g1(O.aff_add(O.g1(a), T))
+                out.append(("torsion-shifted-key", "aggS:" + s_, [shifted], [m], sg, False))
+                out.append(("torsion-shifted-key", "verS:" + s_, [shifted], m, sg, False))
     b = rng.randrange(1, O.BLS_R)
     for T in (O.torsion_g1(rng), (O.Fp(0, P), O.Fp(2, P))):
         pk1 = enc_g1(O.aff_add(O.g1(a), T))
@@ -89,6 +102,10 @@ def cases(rng, tier):
     for tag, api, pks, ms, sg, _ in identity_sig_scenarios(rng):
         if api == "agg":
             cs.append(Case("bls.AggregateVerify", ["pop", tbl(pks), tbl(ms), tb(sg)], tags=(tag,)))
+        elif api.startswith("aggS:"):
+            cs.append(Case("bls.AggregateVerify", [api[5:], tbl(pks), tbl(ms), tb(sg)], tags=(tag,)))
+        elif api.startswith("verS:"):
+            cs.append(Case("bls.Verify", [api[5:], tb(pks[0]), tb(ms), tb(sg)], tags=(tag,)))
         else:
             cs.append(Case("bls.FastAggregateVerify", [tbl(pks), tb(ms), tb(sg)], tags=(tag,)))
     sk, goodpk, keys = malformed_keys(rng, tier)
@@ -216,7 +233,14 @@ def list_pred(s, pks, ms, agg, tag):
 def scenario_pred(tag, api, pks, ms, sg, want):
     from py_ecc.bls import G2ProofOfPossession as POP
     try:
-        got = POP.AggregateVerify(pks, ms, sg) if api == "agg" else POP.FastAggregateVerify(pks, ms, sg)
+        if api == "agg":
+            got = POP.AggregateVerify(pks, ms, sg)
+        elif api.startswith("aggS:"):
+            got = suite_cls(api[5:]).AggregateVerify(pks, ms, sg)
+        elif api.startswith("verS:"):
+            got = suite_cls(api[5:]).Verify(pks[0], ms, sg)
+        else:
+            got = POP.FastAggregateVerify(pks, ms, sg)
     except Exception as e:  # noqa: BLE001
         return (False, f"'{tag}': raised {type(e).__name__}")
     bad = []
